@@ -702,8 +702,11 @@ def stabilizer_projection_trace(gs_stb, ps_stb, gs_obs, ps_obs, r):
             gs_stb[p2] = (gs_stb[p2] + gs_stb[p])%2
         temp_acqs = torch.logical_and(torch.logical_and(acqs,  ~update), ~(indices<N+r))
         temp_acqs = torch.roll(temp_acqs, shifts=(-N), dims=(0))
-        ga = torch.cumsum(temp_acqs.unsqueeze(-1)*torch.cat((ps_stb, ps_stb)).unsqueeze(0), dim=-1) % 2
-        pa = torch.sum(torch.cat((ps_stb, ps_stb))*temp_acqs + ipow(ga, ga), dim=0) % 4
+        # ordered product of the stabilizers selected by the anticommuting destabilizers
+        ga, pa = torch.zeros(Ng, dtype=gs_stb.dtype, device=device), 0
+        for j in temp_acqs.nonzero().flatten():
+            pa = (pa + ps_stb[j] + ipow(ga, gs_stb[j]))%4
+            ga = (ga + gs_stb[j])%2
         if torch.any(update):
             q = (p+N)%(2*N)
             gs_stb[q] = gs_stb[p]
